@@ -1,6 +1,7 @@
 """Scripted transport: the ChannelIO contract of lean/TbotVerif/Model/Channel.lean (`ioRead`,
 `ioWrite`) implemented against the virtual clock."""
 import vclock
+import verbosity
 from tbot.machine.channel import channel as tch
 
 
@@ -27,6 +28,7 @@ class ScriptIO(tch.ChannelIO):
         else:
             k = len(buf)
         self.writes.append((buf, k))
+        verbosity.through_debug_log(self, buf, True)
         return k
 
     def read(self, n: int, timeout=None) -> bytes:
@@ -49,7 +51,7 @@ class ScriptIO(tch.ChannelIO):
                 d = data[:n]
                 self.script[0] = (tick, data[n:])
             self.reads.append((n, tt, t0, t1, d))
-            return d
+            return verbosity.through_debug_log(self, d)
 
         if not self.script:
             if tt is None:
